@@ -55,7 +55,7 @@ def splitter_case(draw, tier):
     def temporal(g, wide):
         kind = draw(st.sampled_from(['tun', 'tun', 'un']))
         if kind == 'un':
-            return ('un', draw(st.sampled_from(['once', 'historically', 'eventually', 'always', 'once', 'historically', 'eventually', 'always', 'prev', 'next', 'rise', 'fall'])), g)
+            return ('un', draw(st.sampled_from(['once', 'historically', 'eventually', 'always', 'once', 'historically', 'eventually', 'always', 'once', 'historically', 'prev', 'next', 'rise', 'fall'])), g)
         b = draw(st.integers(2, 5)) if wide else draw(st.integers(0, 3))
         a = draw(st.integers(0, min(b, 2)))
         return ('tun', draw(st.sampled_from(['once', 'historically', 'eventually', 'always'])), a, b, g)
